@@ -27,7 +27,9 @@ HubMsgs ==
   \cup {Params(NoneInt, 6, NoneDec, NoneDec, "usei", "")}
   \cup {NoHubCfg, [NoHubCfg EXCEPT !.dispatcher = "usr1"], [NoHubCfg EXCEPT !.bsei = "usr1"], [NoHubCfg EXCEPT !.stsei = "usr1"],
         [NoHubCfg EXCEPT !.airdrop = "airdrop"], [NoHubCfg EXCEPT !.registry = "usr1"], [NoHubCfg EXCEPT !.rewards = "usr1"],
-        [NoHubCfg EXCEPT !.updater = "usr1"], HubCfgMsg("dispatcher", "registry", "bsei", "stsei", "", "reward", "")}
+        [NoHubCfg EXCEPT !.updater = "usr1"], HubCfgMsg("dispatcher", "registry", "bsei", "stsei", "", "reward", ""),
+        HubCfgMsg("sink", "", "bsei", "stsei", "", "reward", ""), [NoHubCfg EXCEPT !.dispatcher = "sink"], [NoHubCfg EXCEPT !.registry = "sink"],
+        [NoHubCfg EXCEPT !.airdrop = "sink"]}
   \cup {[k |-> "receive", sender |-> U1, amount |-> 1, hook |-> h] : h \in {"unbond", "convert"}}
   \cup {[k |-> "swap_hook", airdrop_token_contract |-> "airtoken", airdrop_swap_contract |-> "airpair"],
         [k |-> "claim_airdrop", airdrop_token_contract |-> "airtoken", airdrop_contract |-> "airdropc", airdrop_swap_contract |-> "airpair"],
@@ -58,6 +60,7 @@ DispMsgs ==
    [k |-> "update_swap_denom", swap_denom |-> "ufor", is_add |-> FALSE], [k |-> "update_swap_denom", swap_denom |-> "ufor", is_add |-> TRUE]}
   \cup {[k |-> "set_owner", new_owner_addr |-> a] : a \in {"owner2", "usr1"}}
   \cup {DispCfgMsg("", "", "", "", "", r) : r \in DecVals}
+  \cup {DispCfgMsg("", "sink", "", "", "", NoneDec), DispCfgMsg("sink", "", "", "", "", NoneDec)}
   \cup {DispCfgMsg("usr1", "", "", "", "", NoneDec), DispCfgMsg("", "usr1", "", "", "", NoneDec), DispCfgMsg("", "", "usei", "", "", NoneDec),
         DispCfgMsg("", "", "kusd", "", "", D05), DispCfgMsg("", "", "", "usei", "", NoneDec), DispCfgMsg("", "", "", "", "usr1", NoneDec)}
 RegMsgs ==
